@@ -1,17 +1,33 @@
 """C20 -- evaluation is deterministic.
 
-spec: DetermTrace (N runs of one program are one behaviour) and Process (every iteration order of the
-      registry scans as nondeterministic choices over the LIVE registry content; Confluent)
+spec: DetermTrace (N runs of one program are one behaviour; named deviations speak about recorded facts of the
+      process history), Process (every iteration order of the walks that answer with their first match --
+      registry scans, record fields converted to Go, members of a printed scope -- as nondeterministic choices
+      over the LIVE tables; Confluent) and ProcessHist (interpreters of one process declare, use and list type
+      names one after the other; HistoryIndependent: a fresh interpreter observes what its program observes alone)
 bind: fixed probes (decoded JSON objects, hashes, records, Go values handed back by Go methods for a type
-      registered under two names, symbol numbers, packages, error texts, printed output), the surface-language
-      catalogue, the deterministic part of the script corpus and generated programs: 4 runs in fresh
-      interpreters of one process (with other interpreters declaring structs/records/packages in between)
-      + 3 (thorough 6) fresh processes; printed value, error text and captured stdout validated by TLC.
+      registered under two names, symbol numbers, packages, declared types and variables, the type list),
+      walks with k >= 2 candidates (records with several unacceptable fields, packages with aliased members),
+      calls that fail (every global function with values it does not take; values called as functions; printf
+      of every kind of value), the surface-language catalogue, the script corpus (pointer scripts included) and
+      generated programs.  Every program: 4 (walks 10) runs in fresh interpreters of one process with other
+      interpreters in between (generic polluters; a different struct under every struct/defmap name of the
+      program; pointer and slice types and variables), 3 (thorough 6) processes that run the programs in
+      different orders, and for the probes processes whose first interpreter declared (struct int64 ...),
+      overwrote a builtin type through a pointer, or declared a struct named like a Go-registered type; a group
+      of programs runs under a host that has not registered the demo Go types, with (registerDemoFunctions)
+      among the polluters.  Printed value, error text and captured stdout are validated by TLC.
 """
-import collections, json, os
+import collections, json, os, threading
 import vlib, flow
 
 PROP = "C20"
+
+
+def _devs():
+    if os.environ.get("VERIF_DEVS") is not None:      # development aid
+        return os.environ["VERIF_DEVS"]
+    return ",".join(k["id"] for k in vlib.known_findings(PROP))
 
 
 def run():
@@ -19,28 +35,50 @@ def run():
     zv = vlib.build_zv()
     reg = os.path.join(vlib.scratch(), "registry.ndjson")
     vlib.run_zv1(zv, "determ", ["-registry"], out=reg)
-    runs = [dict(module="Process.tla", cfg="Process.cfg", env={"VERIF_REGISTRY": reg})]
+    runs = [dict(module="Process.tla", cfg="Process.cfg", env={"VERIF_REGISTRY": reg}),
+            dict(module="ProcessHist.tla", cfg="ProcessHist.cfg")]
     if vlib.tier() == "thorough":
         runs.append(dict(module="Process.tla", cfg="ProcessPinned.cfg", env={"VERIF_REGISTRY": reg}, expect="violation"))
-    flow.mc_runs(out, runs)
+        runs.append(dict(module="ProcessHist.tla", cfg="ProcessHistPinned.cfg", expect="violation"))
+    # the model-checking runs go on while the harness records (they do not depend on each other)
+    mc_err = []
+
+    def mc():
+        try:
+            flow.mc_runs(out, runs)
+        except BaseException as e:          # re-raised in the main thread
+            mc_err.append(e)
+    th = threading.Thread(target=mc)
+    th.start()
     trace = os.path.join(vlib.scratch(), "determ.ndjson")
-    vlib.run_zv(zv, "determ", [], trace, nshard=8, timeout=3000)
-    cases, v = flow.validate(out, "determ", "DetermTrace.tla", "DetermTrace.cfg", trace, zv, confirm=False)
+    try:
+        vlib.run_zv(zv, "determ", [], trace, nshard=8, timeout=3000)
+    finally:
+        th.join()
+    if mc_err:
+        raise mc_err[0]
+    cases, v = flow.validate(out, "determ", "DetermTrace.tla", "DetermTrace.cfg", trace, zv, confirm=False,
+                             env={"VERIF_DEVS": _devs()})
     by = collections.Counter(c["src"].split(":")[0] for c in cases.values())
     nruns = sum(len(c["obs"]) for c in cases.values())
+    kinds = collections.Counter(r.rstrip("0123456789") for c in cases.values() for r in c["runs"])
+    walks = json.loads(open(reg).readline())["walks"]
     cov = {
         "states": out.states, "transitions": out.transitions,
         "traces_validated_against_impl": len(cases),
-        "runs": nruns, "programs_by_source": dict(by),
-        "registry_entries": len(json.loads(open(reg).readline())["entries"]),
+        "runs": nruns, "runs_by_kind": dict(kinds), "programs_by_source": dict(by),
+        "registry_entries": len(walks[0]["entries"]),
+        "walks_modelled": {w["name"]: len(w["entries"]) for w in walks},
         "samples": [{"text": c["text"][:300], "obs": c["obs"][:2], "runs": c["runs"]} for c in list(cases.values())[:3]],
-        "rule": "every program x (4 in-process fresh interpreters with polluting interpreters in between + 3/6 fresh processes)",
+        "rule": "every program x (4-10 fresh interpreters of one process with polluting interpreters in between + 3/6 processes "
+                "running the programs in different orders + 3 poisoned processes for the probes)",
     }
     return flow.finish(out, "model_checking", cov, [
-        "addresses, goroutine ids and recovered-panic stack traces are masked; programs using random, time, pointers, files, "
-        "channels, gensym names or registerDemoFunctions (process-wide by design) are excluded",
+        "pointer printing is masked where it is explicit only: the (0x..) identities of scope/stack dumps, and every address "
+        "in programs that use &, (* T) variables or fields, ptr or %p; stack traces and Go-syntax dumps are compared as they are; "
+        "programs using random, time, files, channels or processes are excluded",
         "map-iteration seeds differ per process and per range statement; N runs sample them, they do not enumerate them "
-        "(the enumeration is done on the model: Process.tla over the live registry)",
+        "(the enumeration is done on the model: Process.tla over the live tables)",
     ])
 
 
@@ -53,7 +91,7 @@ def replay(path):
     for attempt in range(4):   # a difference that depends on map order may need several attempts to show again
         fresh = os.path.join(vlib.scratch(), "fresh%d.ndjson" % attempt)
         vlib.run_zv1(zv, "determ", ["-replay", rp], out=fresh)
-        v, _ = vlib.validate_trace("DetermTrace.tla", "DetermTrace.cfg", fresh)
+        v, _ = vlib.validate_trace("DetermTrace.tla", "DetermTrace.cfg", fresh, env={"VERIF_DEVS": _devs()})
         bad = [i for i in v if v[i][0] == "bad"]
         if bad:
             break
